@@ -81,6 +81,8 @@ fn run(op: &str, args: &[Sx]) -> Option<Sx> {
         });
     }
     Some(match op {
+        // (err-msgs) -> ("division by zero" "zero to the power of zero ..." "exponent too large")
+        "err-msgs" => sx::l(hk::admissible_error_messages().iter().map(|m| sx::s(m)).collect()),
         // (eval "text" ...) -> one ("o" "result") | ("e" "message") per text, each on a fresh context
         "eval" => {
             let mut outs = vec![];
